@@ -31,6 +31,13 @@ def cb_jet_rewrite(s, a):
     return s.MetaData({"tag": "jet_mass"}), new
 
 
+def cb_evt_rw(s, a):
+    "returns another call site (a new node); the result is used as receiver of a further call site"
+    LOG.append(("method", "Evt", a.func.attr))
+    new = ast.Call(ast.Attribute(a.func.value, "lead_rewritten", L), list(a.args), [])
+    return s.MetaData({"tag": "lead_rw"}), new
+
+
 def cb_calib(s, a):
     LOG.append(("func", "calib", len(a.args)))
     return s.MetaData({"tag": "calib"}), a
@@ -87,6 +94,9 @@ class Evt:
     def lead(self) -> Jet: ...  # noqa
     def met(self) -> float: ...  # noqa
 
+    @func_adl_callback(cb_evt_rw)
+    def lead_rw(self) -> Jet: ...  # noqa
+
 
 @func_adl_callable(cb_calib)
 def calib(x: float) -> float: ...  # noqa
@@ -100,8 +110,8 @@ class TDS(EventDataset[Evt]):
         return a
 
 
-NSITES = 8
-TAGS = {0: ["jet_pt"], 1: [], 2: ["trk_class", "trk_pt"], 3: ["trk_class"], 4: ["calib"], 5: ["param"], 6: ["jet_mass"], 7: ["muon_class"]}
+NSITES = 9
+TAGS = {0: ["jet_pt"], 1: [], 2: ["trk_class", "trk_pt"], 3: ["trk_class"], 4: ["calib"], 5: ["param"], 6: ["jet_mass"], 7: ["muon_class"], 8: ["lead_rw", "jet_pt"]}
 
 
 def P(s):
@@ -126,6 +136,8 @@ def site(i, jv, k, s):
         return n
     if i == 7:   # method inherited from an undecorated base, called on an instance of the decorated subclass (independent of jv)
         return P("e.lead_mu().p()")
+    if i == 8:   # a callback that returns a new call node, with a callback-bearing call site chained on its result (independent of jv)
+        return P("e.lead_rw().pt()")
     return P("%s.mass()" % jv)
 
 
@@ -147,21 +159,24 @@ def expected_log(mask, k, s):
                 exp.append(("method", "Jet", "mass"))
             elif i == 7:
                 exp.append(("class", "Muon", "p"))
+            elif i == 8:
+                exp += [("method", "Evt", "lead_rw"), ("method", "Jet", "pt")]
     return exp
 
 
-def c09(code: int, m2: int, k: int) -> str:
+def c09(code: int, m2: int, m3: int, k: int) -> str:
     """
-    pre: LO <= code < HI and 0 <= code < 48
-    pre: 0 <= m2 < 16
+    pre: LO <= code < HI and 0 <= code < 64
+    pre: 0 <= m2 < 16 and 0 <= m3 < 2
     post: (_ == '') != TWIN
     """
     s = "cpp_type"
-    code = pick(code, max(LO, 0), min(HI, 48))
+    code = pick(code, max(LO, 0), min(HI, 64))
     place, mlow = code // 16, code % 16
-    mask = mlow | (pick(m2, 0, 16) << 4)
+    mask = mlow | (pick(m2, 0, 16) << 4) | (pick(m3, 0, 2) << 8)
     present = [i for i in range(NSITES) if (mask >> i) & 1]
-    # placement: 0 = sites inside e.Jets().Select(lambda j: ...); 1 = sites on e.lead() directly in the stream lambda; 2 = Where over jets inside SelectMany
+    # placement: 0 = sites inside e.Jets().Select(lambda j: ...); 1 = sites on e.lead() directly in the stream lambda; 2 = Where over jets inside SelectMany;
+    # 3 = as 2, the nested lambda handed to Where by keyword
     jv = "j" if place != 1 else "e.lead()"
     terms = [site(i, jv, k, s) for i in present] or [P("%s.idx()" % jv)]
     total = terms[0]
@@ -173,8 +188,12 @@ def c09(code: int, m2: int, k: int) -> str:
     elif place == 1:
         body = ast.Tuple([total, P("e.met()")], L)
         op = "Select"
-    else:
+    elif place == 2:
         body = ast.Call(ast.Attribute(P("e.Jets()"), "Where", L), [ast.Lambda(ast.arguments([], [ast.arg("j")], None, [], [], None, []), ast.Compare(total, [ast.Gt()], [ast.Constant(1)]))], [])
+        op = "SelectMany"
+    else:
+        body = ast.Call(ast.Attribute(P("e.Jets()"), "Where", L), [],
+                        [ast.keyword("filter", ast.Lambda(ast.arguments([], [ast.arg("j")], None, [], [], None, []), ast.Compare(total, [ast.Gt()], [ast.Constant(1)])))])
         op = "SelectMany"
     lam = ast.Lambda(ast.arguments([], [ast.arg("e")], None, [], [], None, []), body)
     del LOG[:]
@@ -226,6 +245,10 @@ def c09(code: int, m2: int, k: int) -> str:
             rw = [x for x in calls if isinstance(x.func, ast.Attribute) and x.func.attr == "mass_rewritten"]
             if len(rw) != 1 or len(rw[0].args) != 2 or any(isinstance(x.func, ast.Attribute) and x.func.attr == "mass" for x in calls):
                 return "the call-site rewrite returned by the callback is not what the query contains"
+        if 8 in present:
+            rw = [x for x in calls if isinstance(x.func, ast.Attribute) and x.func.attr == "lead_rewritten"]
+            if len(rw) != 1 or any(isinstance(x.func, ast.Attribute) and x.func.attr == "lead_rw" for x in calls):
+                return "the call-site rewrite returned by the callback (receiver of another call site) is not what the query contains"
         if 5 in present:
             ga = [x for x in calls if isinstance(x.func, ast.Attribute) and x.func.attr == "getAttr"]
             subs = [x for x in ast.walk(q.args[1]) if isinstance(x, ast.Subscript) and isinstance(x.value, ast.Attribute) and x.value.attr == "getAttr"]
